@@ -249,10 +249,16 @@ MUTANTS = [
     ("sqrt-jvp-of-modulus", {"C09": "A4.holo"}, [(NJ, "defjvp(anp.sqrt, lambda g, ans, x: g * 0.5 * x**-0.5)", "defjvp(anp.sqrt, lambda g, ans, x: g * 0.5 * anp.abs(x) ** -0.5)")]),
     ("trace-warns-only-at-level-zero", {"C19": "A12.cmp"}, [(TR, "            warnings.warn(\"Output seems independent of input.\")", "            if t < 1:\n                warnings.warn(\"Output seems independent of input.\")")]),
     ("untake-skips-scatter-for-scalars", {"C11": "A9.scatter"}, [(NV, "    def mut_add(A):\n        onp.add.at(A, idx, x)\n        return A", "    def mut_add(A):\n        if onp.ndim(x) or onp.ndim(A):\n            onp.add.at(A, idx, x)\n        return A")]),
+    ("diff-jvp-same-again", {"C02": "A1.lin"}, [(NJ, "defjvp(anp.diff, fwd_grad_diff)", "defjvp(anp.diff, \"same\")")]),
+    ("diff-jvp-pads-with-the-given-values", {"C02": "A5.lin", "C04": "A5.lin"}, [(NJ, "    return anp.diff(g, n, axis, *zero_ends, **zero_kw_ends)", "    return anp.diff(g, n, axis, *ends, **kw_ends)")]),
+    ("broadcast-to-axes-by-zip-without-rank-assert", {"C05": "A3.rank", "C01": "A3.rank"}, [(NV, "    assert len(old_shape) == len(new_shape), \"Can't handle extra leading dims\"\n    broadcast_axes = tuple(\n        onp.where(onp.logical_and(onp.array(old_shape) == 1, onp.array(new_shape) > 1))[0]\n    )", "    broadcast_axes = tuple(i for i, (old, new) in enumerate(zip(old_shape, anp.shape(ans))) if old == 1 and new > 1)")]),
+    ("complex-space-zeros-promoted-with-python-complex", {"C13": "A9.pure", "C14": "A9.pure"}, [(NS, "    def zeros(self):\n        return np.zeros(self.shape, dtype=self.dtype)", "    def zeros(self):\n        return np.zeros(self.shape, dtype=np.promote_types(self.dtype, np.float32))")]),
     ("container-space-loses-subval", {"C12": "A1.spaces"}, [(BU, "    def _subval(self, xs, idx, x):\n        d = dict(xs.items())\n        d[idx] = x\n        return d\n", "")]),
 ]
 
 BENIGN = [
+    ("diff-jvp-zero-ends-via-map", [(NJ, "    zero_ends = [anp.zeros_like(end) for end in ends]", "    zero_ends = list(map(anp.zeros_like, ends))")]),
+    ("broadcast-to-axes-by-zip-under-the-rank-assert", [(NV, "    broadcast_axes = tuple(\n        onp.where(onp.logical_and(onp.array(old_shape) == 1, onp.array(new_shape) > 1))[0]\n    )", "    broadcast_axes = tuple(i for i, (old, new) in enumerate(zip(old_shape, anp.shape(ans))) if old == 1 and new > 1)")]),
     ("power-exponent-rule-where-spelling", [(NJ, "    lambda g, ans, x, y: g * anp.log(replace_zero(x, 1.0)) * ans,", "    lambda g, ans, x, y: g * anp.log(anp.where(x, x, 1.0)) * ans,")]),
     ("trace-id-renamed", [(TR, "    with trace_stack.new_trace() as t:\n        start_box = new_box(x, t, start_node)", "    with trace_stack.new_trace() as level:\n        start_box = new_box(x, level, start_node)")]),
     ("sort-guards-by-ndim-of-argument", [(NV, "def grad_sort(ans, x, axis=-1, kind=\"quicksort\", order=None):\n    # TODO: Cast input with np.asanyarray()\n    if len(x.shape) > 1:", "def grad_sort(ans, x, axis=-1, kind=\"quicksort\", order=None):\n    if anp.ndim(x) > 1:"), (NJ, "def fwd_grad_sort(g, ans, x, axis=-1, kind=\"quicksort\", order=None):\n    if len(x.shape) > 1:", "def fwd_grad_sort(g, ans, x, axis=-1, kind=\"quicksort\", order=None):\n    if anp.ndim(x) > 1:")]),
